@@ -154,6 +154,34 @@ add(property='C01', id='C01-conic-lost', status='fixed', commit='3e03bb0', claus
                                             ap=('EPD', 8.0), fields=(0.0, 3.0)),
                 'ops': [{'op': 'set_conic', 's': 0, 'v': -1.0}, {'op': 'set_radius', 's': 0, 'v': 55.0}]})
 
+_c19_spec = spec([surf(R=40.0, t=5.0, mat=glass(1.6), stop=True), surf(R=-60.0, t=12.0), surf(R=30.0, t=4.0, mat=glass(1.5)),
+                  surf(R='inf', t=40.0)], ap=('EPD', 8.0), fields=(0.0, 3.0))
+_c19_rays = [[0.0, 0.0, 0.0], [0.5, 0.3, 0.4], [1.0, -0.5, 0.5], [1.0, 0.0, 1.0]]
+
+
+def _ex(**kw):
+    e = dict(fresnel=[], bsdf=None, abbe=None, polar=None, wl_unit='um', pickups=[], solve=None, edits=[], tele=False)
+    e.update(kw)
+    return e
+
+
+add(property='C19', id='C19-array-z', status='fixed', commit='d823a64', clause='json_serialisable',
+    what='fixed: property=C19 d823a64 after set_thickness / scale_system / a solve the vertex z values were numpy arrays '
+         'and json.dump of the lens raised TypeError',
+    reproducer={'spec': _c19_spec, 'ex': _ex(edits=[['set_thickness', 1, 7.5], ['scale_system', 0, 2.0]],
+                                             solve=[1, 1.0]), 'rays': _c19_rays, 'wl': 0})
+add(property='C19', id='C19-pickup-reapply', status='fixed', commit='3ba8645', clause='reloaded_dict_equals_source',
+    what='fixed: property=C19 3ba8645 from_dict re-applied pickups, changing the reloaded prescription (rounding of vertex '
+         'positions, or a target edited after the last update)',
+    reproducer={'spec': _c19_spec, 'ex': _ex(pickups=[['thickness', 0, 2, 1.0, 0.0], ['radius', 0, 2, -1.0, 0.0]],
+                                             edits=[['set_radius', 2, 20.0]]), 'rays': _c19_rays, 'wl': 0})
+add(property='C19', id='C19-fresnel-json', status='fixed', commit='9eda77c', clause='json_serialisable',
+    what='fixed: property=C19 9eda77c FresnelCoating.to_dict embedded material objects: lens not JSON serialisable',
+    reproducer={'spec': _c19_spec, 'ex': _ex(fresnel=[0, 1], polar='H'), 'rays': _c19_rays, 'wl': 0})
+add(property='C19', id='C19-polarization-json', status='fixed', commit='f97803c', clause='json_serialisable',
+    what='fixed: property=C19 f97803c Optic.to_dict embedded the PolarizationState object: lens not JSON serialisable',
+    reproducer={'spec': _c19_spec, 'ex': _ex(polar='L+45'), 'rays': _c19_rays, 'wl': 0})
+
 if __name__ == '__main__':
     json.dump({'findings': F}, open(os.path.join(HERE, 'known_findings.json'), 'w'), indent=1)
     print(len(F), 'findings written')
